@@ -11,9 +11,15 @@ QUICK_ANCHORS = ['AdcRegisterA1', 'AdcRegisterT1', 'AdcRegisterT2', 'AddRegister
                  'LslRegisterT2', 'AddImmediateThumbT3']
 
 
+# rows whose PC-write rule differs between ARMv6 and ARMv7 (ALUWritePC interworks from ARMv7 in ARM state)
+ARCH6_EXTRA = ['MovRegisterArmA1', 'AddRegisterArmA1', 'SubRegisterA1', 'AndImmediateA1', 'MovImmediateA1',
+               'AddSpPlusRegisterArmA1', 'RsbRegisterShiftedRegisterA1', 'EorRegisterA1']
+
+
 def units(tier, seed=0):
     if tier == 'quick':
-        us = famcheck.family_units({'dp'}, [6, 7], TABLES)
+        us = famcheck.family_units({'dp'}, [7], TABLES)
+        us += famcheck.family_units({'dp'}, [6], TABLES, only=QUICK_ANCHORS + ARCH6_EXTRA)
     else:
         us = famcheck.family_units({'dp'}, [4, 5, 6, 7], TABLES) + \
             famcheck.family_units({'dp'}, [6], TABLES, sec=False, tag='/nosec')
@@ -41,7 +47,7 @@ META = {
                    'with every instruction field, all 34 physical registers, NZCVQ/GE/IT/AIF and the mode symbolic; '
                    'per explored path the solver must show post-state == oracle step for every snapshot component '
                    '(all registers of all banks, CPSR, SPSRs, every system register, memory array).',
-    'bounds': ['architecture versions enumerated (quick 6,7; thorough 4,5,6,7 and 6 without security extensions)',
+    'bounds': ['architecture versions enumerated (quick: every row on 7, the anchor rows and the ARM rows with Rd = PC forms on 6; thorough 4,5,6,7 and 6 without security extensions)',
                'MPU off, CPSR.E = 0, J = 0', 'history independence: 7 concrete instructions whose operands depend on the '
                'flags / IT state, each first executed from a state with unrelated flags and IT state', 'inputs on which the architecture is UNPREDICTABLE are excluded '
                '(assumed away by the oracle predicate)', 'no bound on operand values, shift amounts (0..255) or '
